@@ -201,3 +201,59 @@ func init() {
 		return true
 	}
 }
+
+func init() {
+	// encoding/json.Marshal: serialisation is library code outside the encoding. A struct (the file
+	// footer payload) always marshals, to bytes of opaque content; a row map marshals to the JSON
+	// text of the abstract node it was built from (key "\x00node"), fails if it carries the
+	// harness' unmarshalable marker (key "bad", natively a chan value), else to opaque bytes.
+	models["encoding/json.Marshal"] = func(e *Engine, st *State, x *ssa.Call, args []Value) bool {
+		ts := e.ts
+		iv := args[0].(*IfaceV)
+		opaque := func(n int) Value {
+			elems := make([]Value, n)
+			for i := range elems {
+				elems[i] = ts.Var("json", BV(8))
+			}
+			return e.mkSlice(st, elems)
+		}
+		if mr, ok := iv.V.(*MapRef); ok && mr.Obj != nil {
+			mv := st.heap[mr.Obj.ID].(*MapV)
+			for i, k := range mv.Keys {
+				ks, isStr := k.(*StrV)
+				if !isStr {
+					continue
+				}
+				if s, ok := strConcrete(ks); ok && s == "bad" {
+					setRes(st, x, TupleV{&SliceV{}, newErr("json: unsupported type: chan int")})
+					return true
+				} else if ok && s == "\x00node" {
+					node := mv.Vals[i].(*IfaceV).V.(*PtrV)
+					ln := ts.Var("doclen", BV(64))
+					st.addPC(ts.App(BoolSort, "bvuge", ln, ts.BVInt(64, 2)), ts.App(BoolSort, "bvult", ln, ts.BVInt(64, 1<<30)))
+					o := e.newObj(st, nil, &DocBytesV{Node: node, Len: ln})
+					setRes(st, x, TupleV{&SliceV{Obj: o, Off: ts.BVInt(64, 0), Len: ln, Cap: ln}, nilErr()})
+					return true
+				}
+			}
+			setRes(st, x, TupleV{opaque(3), nilErr()})
+			return true
+		}
+		setRes(st, x, TupleV{opaque(2), nilErr()})
+		return true
+	}
+	models["(*bytes.Buffer).WriteByte"] = func(e *Engine, st *State, x *ssa.Call, args []Value) bool {
+		p := args[0].(*PtrV)
+		b := e.load(st, p).(*StructV)
+		sl := b.F[0].(*SliceV)
+		var old []Value
+		if sl.Obj != nil {
+			old = e.sliceElems(st, sl)
+		}
+		nb := &StructV{F: append([]Value(nil), b.F...)}
+		nb.F[0] = e.mkSlice(st, append(append([]Value(nil), old...), args[1]))
+		e.store(st, p, nb)
+		setRes(st, x, nilErr())
+		return true
+	}
+}
